@@ -15,8 +15,9 @@ class JobBudget(Exception):
 
 
 class Oblig:
-    def __init__(s, name, pre, post_fn, lane=None, rename=None, region_args=None, kind='spec', replay_fn=None):
+    def __init__(s, name, pre, post_fn, lane=None, rename=None, region_args=None, kind='spec', replay_fn=None, steer_fn=None):
         s.name = name; s.pre = pre; s.post_fn = post_fn; s.lane = lane; s.rename = rename
+        s.steer_fn = steer_fn         # optional search for a reproducible witness after a spurious model: (decider, assumptions, goal, model, run, rdir) -> (verdict, info)
         s.replay_fn = replay_fn       # optional custom native confirmation: (model, run, rdir) -> (True violated | False spurious | None no replay, info dict)
         s.region_args = region_args   # operands handed to known-finding region predicates
         s.kind = kind
@@ -375,6 +376,13 @@ def decide_one(dec, rec, k, run, ob, base, pre, goal, known, reported_known, job
             if verdict:
                 rec['violations'].append(cex); return fin('violated')
             rec.setdefault('spurious', []).append(cex)
+            if ob.steer_fn is not None:
+                verdict, info = ob.steer_fn(dec, base + pre + extra, goal, m, run, rdir)
+                if verdict:
+                    rdir = info.get('rdir', rdir)
+                    cex = dict(where=name, replay=rdir, inputs=info.get('inputs', {}), native=info.get('native', ''), why=info.get('why'))
+                    json.dump(dict(kernel=k.name, obligation=name, property=job['prop'], **{kk: vv for kk, vv in info.items()}), open(os.path.join(rdir, 'counterexample.json'), 'w'), indent=1, default=str)
+                    rec['violations'].append(cex); return fin('violated')
             rec['undecided'].append(name + ' (model does not reproduce natively)'); return fin('undecided')
         # prefer a member the host can execute
         raw, why = native_run(runk, inputs, rdir)
